@@ -113,6 +113,18 @@ theorem sum_flatMap {β : Type} (l : List β) (f : β → List ℝ) :
 theorem getAt_eq_getElem (l : List ℝ) (i : Nat) (h : i < l.length) : getAt l i = l[i] := by
   simp [getAt, List.getD_eq_getElem?_getD, h]
 
+/-- the two shares of the crossing segment's value add up to it — also when the crossing segment has no length -/
+theorem splitShare_sum (v l1 l2 : ℝ) : splitShare v l1 (l1 + l2) + splitShare v l2 (l1 + l2) = v := by
+  unfold splitShare
+  by_cases h : l1 + l2 = 0
+  · have : nonzero (l1 + l2) = false := (nonzero_real_false _).2 h
+    simp only [this, Bool.false_eq_true, if_false, lit_real]
+    norm_num
+    ring
+  · have : nonzero (l1 + l2) = true := (nonzero_real _).2 h
+    simp only [this, if_true]
+    field_simp
+
 theorem sum_split (v : List ℝ) (idx : Nat) (h : idx < v.length) (a b : ℝ) (hab : a + b = getAt v idx) :
     (v.take idx ++ [a]).sum + (b :: v.drop (idx + 1)).sum = v.sum := by
   have h1 : v.sum = (v.take idx).sum + (v.drop idx).sum := (List.sum_take_add_sum_drop v idx).symm
